@@ -38,6 +38,8 @@ type Proc struct {
 	Done    bool
 	Err     error
 	Parked  bool
+	waitOn  map[string]bool // cells the last aborted attempt accessed (nil = wake on any commit)
+	chose   bool            // the attempt in flight consulted a choice
 	Commits int
 	Aborts  int
 }
@@ -91,6 +93,9 @@ type Sched struct {
 	OnCommit func(st Step) error
 	// IdleRounds is the number of consecutive rounds without a commit after which the run ends (default 3).
 	IdleRounds int
+	// ParkAlways parks every aborted attempt until the next commit (the simple discipline), instead of keeping
+	// choice-dependent aborts schedulable and waking deterministic ones only on relevant writes.
+	ParkAlways bool
 
 	ready   chan msg
 	quit    bool
@@ -125,6 +130,7 @@ func (g *gate) NextFairnessCounter(id string, ceiling uint) uint {
 	if ceiling == 0 {
 		panic("NextFairnessCounter with ceiling 0")
 	}
+	g.p.chose = true
 	if g.s.Choice != nil {
 		v := g.s.Choice(g.p, id, ceiling)
 		if v >= ceiling {
@@ -219,7 +225,9 @@ type RunResult struct {
 func (s *Sched) grantOnce(p *Proc) (finished bool) {
 	p.hadEvt = false
 	p.atGate = false
+	p.chose = false
 	s.current = p
+	s.Store.resetAccess()
 	p.grant <- true
 	m := <-s.ready
 	if m.id != p.ID {
@@ -238,7 +246,20 @@ func (s *Sched) grantOnce(p *Proc) (finished bool) {
 func (s *Sched) Run(maxSteps int) RunResult {
 	res := RunResult{}
 	idle := 0
+	sinceCommit := 0
 	for s.Steps < maxSteps {
+		if sinceCommit > 30*len(s.Procs) {
+			// choice-dependent attempts keep aborting: count it as an idle round
+			sinceCommit = 0
+			idle++
+			if idle >= s.IdleRounds {
+				res.EndedIdle = true
+				break
+			}
+			for _, p := range s.Procs {
+				p.Parked = false
+			}
+		}
 		var cands []*Proc
 		alive := 0
 		for _, p := range s.Procs {
@@ -325,18 +346,49 @@ func (s *Sched) Run(maxSteps int) RunResult {
 			continue
 		}
 		if p.lastAb {
-			p.Parked = true
 			p.Aborts++
 			s.Aborts++
+			sinceCommit++
+			// An attempt that consulted a choice may succeed with another answer: it stays schedulable.
+			// A deterministic abort is parked until a commit writes a cell it accessed (or an idle round).
+			if !p.chose || s.ParkAlways {
+				p.Parked = true
+				p.waitOn = s.Store.acc
+				if s.ParkAlways || len(p.waitOn) == 0 {
+					p.waitOn = nil
+				}
+			}
 			continue
 		}
 		idle = 0
+		sinceCommit = 0
 		p.Commits++
 		s.Steps++
 		s.Labels[label]++
 		s.sig = (s.sig ^ uint64(p.ID*131+len(label)) ^ hashStr(label)) * 1099511628211
 		for _, q := range s.Procs {
-			q.Parked = false
+			if !q.Parked {
+				continue
+			}
+			if q.waitOn == nil {
+				q.Parked = false
+				continue
+			}
+			for k := range s.Store.wr {
+				if q.waitOn[k] || q.waitOn[varOf(k)] {
+					q.Parked = false
+					break
+				}
+				// a whole-variable write wakes everyone waiting on a cell of it
+				if !strings.Contains(k, "|") {
+					for w := range q.waitOn {
+						if varOf(w) == k {
+							q.Parked = false
+							break
+						}
+					}
+				}
+			}
 		}
 		if s.OnCommit != nil {
 			if err := s.OnCommit(Step{N: s.Steps, Proc: p, Label: label, Elems: p.elems}); err != nil {
@@ -347,6 +399,13 @@ func (s *Sched) Run(maxSteps int) RunResult {
 	}
 	res.Steps, res.Aborts = s.Steps, s.Aborts
 	return res
+}
+
+func varOf(k string) string {
+	if i := strings.Index(k, "|"); i >= 0 {
+		return k[:i]
+	}
+	return k
 }
 
 func hashStr(s string) uint64 {
